@@ -32,11 +32,15 @@ def A_dict(c):
 
 def pivot_lines(r, prec="d"):
     """model input lines for every pivot record of a result; returns (lines, expected)"""
+    import math
     lines, exp = [], []
     for rec in r.get("pivots", []):
         vals = [float.fromhex(x) for x in rec["vals"]]
         mags = [abs(v) for v in vals]
         thr = float.fromhex(rec["thresh"])
+        if not all(math.isfinite(v) for v in mags + [thr]):
+            exp.append((None, None, None, rec))      # the records before it are still replayed; see replay_pivots
+            break
         sing = rec["usepr_out"] == -1
         allv = mags + ([thr] if not sing else [])
         ints, _ = cert.to_scaled_ints(allv)
@@ -52,8 +56,12 @@ def pivot_lines(r, prec="d"):
 
 def replay_pivots(ctx, pdrv, c, r):
     lines, exp = pivot_lines(r)
+    nonfin = None
+    if exp and exp[-1][0] is None:
+        nonfin = "pivot search of column %d saw a non-finite candidate value" % exp[-1][3]["j"]
+        exp = exp[:-1]
     if not lines:
-        return None, 0
+        return nonfin, 0
     rc, out, err = vf.sh2([pdrv], inp="\n".join(lines) + "\n", timeout=600)
     got = [l.split() for l in out.strip().split("\n")] if out.strip() else []
     if rc != 0 or len(got) != len(exp):
@@ -68,7 +76,7 @@ def replay_pivots(ctx, pdrv, c, r):
             mags = [abs(float.fromhex(x)) for x in rec["vals"]]
             if float.fromhex(rec["thresh"]) != u * max(mags):
                 return "column %d: thresh %s is not u*pivmax = %r" % (rec["j"], rec["thresh"], u * max(mags)), 0
-    return None, len(exp)
+    return nonfin, len(exp)
 
 
 def oracle(c, r, prec="d", k_gamma=None):
@@ -179,6 +187,8 @@ def run(ctx):
             if bad is None:
                 pb, k = replay_pivots(ctx, pdrv, c, r)
                 npiv += k
+                if pb and "non-finite" in pb and r.get("info") != 0:
+                    pb = None       # Inf/NaN after a reported zero pivot are legitimate (C06's domain)
                 if pb:
                     # a pivot decision differs from the model: is the property itself broken on this input?
                     ctx.broken.append("correspondence pivot replay: " + pb)
